@@ -221,3 +221,16 @@ Fixpoint ewf {I A} (e : expr I A) (ns : list nat) : Prop :=
   | EKamaTail _ cl scs => ewf cl ns /\ ewf scs ns /\ elen cl ns - 1 <= elen scs ns
   | EMovingStd _ p e => (1 <= p)%Z /\ ewf e ns
   end.
+
+(* The one domain condition prefix-monotonicity depends on: the KAMA tail loop must never run out of smoothing
+   constants (it would read the zero value of a closed channel).  Everything else is monotone unconditionally. *)
+Fixpoint ekw {I A} (e : expr I A) (ns : list nat) : Prop :=
+  match e with
+  | EIn _ => True
+  | EMap _ e | EMapSt _ _ e | ECount _ _ e | ESkip _ e | EHead _ e | EFirst _ e | EBuyHold _ _ e
+  | EShift _ _ e | EBuf _ e | EMovingStd _ _ e => ekw e ns
+  | EOp2 _ a b | EOp2St _ _ a b => ekw a ns /\ ekw b ns
+  | EOp3 _ a b c | EOp3St _ _ a b c => ekw a ns /\ ekw b ns /\ ekw c ns
+  | ESeeded seed p _ e => ekw seed ns /\ ekw e ns
+  | EKamaTail _ cl scs => ekw cl ns /\ ekw scs ns /\ elen cl ns - 1 <= elen scs ns
+  end.
